@@ -291,40 +291,6 @@ def ref_negative_chain(p, sigma, delta, above=False):
                               lambda x: any(delta(y) for y in e_vars(mp[x])) if x in mp else delta(x), above)
 
 
-def ref_mc_bakes(root, mn, q):
-    """reference walk of make_compatible on a ref_inst tree (count, volatile?, children | atom): does it concatenate
-    the children of a node that has a volatile count strictly below it?"""
-    def dur(nd):
-        c, _, ks = nd
-        return c * (CDUR[ks] if isinstance(ks, int) else sum(dur(k) for k in ks))
-
-    def level(nd):
-        d = dur(nd)
-        if d < mn:
-            return 'short'
-        if d % q:
-            return 'quantum'
-        ks = nd[2]
-        if isinstance(ks, int):
-            return 'action' if CDUR[ks] < mn or CDUR[ks] % q else 'compatible'
-        return 'compatible' if all(level(k) == 'compatible' for k in ks) else 'action'
-
-    def vol_below(nd):
-        ks = nd[2]
-        return False if isinstance(ks, int) else any(k[1] or vol_below(k) for k in ks)
-
-    def walk(nd):
-        ks = nd[2]
-        if isinstance(ks, int):
-            return False
-        lv = [level(k) for k in ks]
-        if any(x in ('short', 'quantum') for x in lv):
-            return vol_below(nd)
-        return any(walk(k) for k, x in zip(ks, lv) if x == 'action')
-
-    return level(root) == 'action' and walk(root)
-
-
 def env_fn(vals):
     def f(x):
         if x not in vals:
@@ -1877,17 +1843,8 @@ def classify(case, obs):
         return None
     if case['kind'] == 'compat':
         b = obs.get('before', {})
-        # volatile loops vanished into a concatenated waveform and no VolatileModificationWarning was emitted, and an
-        # independent walk of the documented algorithm says: a node whose children are concatenated has a volatile
-        # count strictly below it (a volatile count that vanishes in any other way is not this finding)
-        if 'ok' in b and not b['warn'] and b['nvol_after'] < b['nvol_before']:
-            try:
-                V0 = set(case['V'])
-                nodes = ref_inst(case['pt'], env_fn(dict(case['vals'])), lambda x: x in V0)
-                if ref_mc_bakes((1, False, nodes), case['min_len'], case.get('q', 16)):
-                    return 'C15-make-compatible-bakes-volatile-child'
-            except KeyError:
-                pass
+        # (the finding make-compatible-bakes-volatile-child is FIXED in /repo 57d5a3e: a volatile count that vanishes
+        # into a concatenated waveform without a VolatileModificationWarning is a violation again, no classification)
         V = set(case['V'])
         try:
             if ref_dropped_volatile(case['pt'], env_fn(dict(case['vals'])), lambda x: x in V):
@@ -2106,7 +2063,11 @@ MANIFEST = {
                   '(C15_float_update_is_fresh), the instantiation assertion cannot fail, no warning => accepted, the '
                   'two tolerance tests differ only on the boundary, truncation instead of rounding is refuted by '
                   '0.3/0.1, and the integer model is the restriction of the float model below 2^53 '
-                  '(C15_float_round53_integers, C15_float_integer_restriction).  (2) Loop.split_one_child: a volatile '
+                  '(C15_float_round53_integers, C15_float_integer_restriction); error analysis: one rounding has '
+                  'relative error <= 2^-53 (C15_float_round53_error) and, for the class of seed C15-5 in general, '
+                  'fl(fl(K*Y)/fl(Y)) is read as K by update AND instantiation without warning for every K < 2^20, '
+                  'Y > 0 (C15_float_quotient_count); truncation is off by one below every integer '
+                  '(C15_float_truncation_off_by_one).  (2) Loop.split_one_child: a volatile '
                   'entry is split only if every splittable entry is volatile (C15_split_prefers_fixed); when the fixed '
                   'repeated entries can absorb the needed splits _check_partial_unroll adds no warning '
                   '(C15_partial_unroll_keeps_volatile; example and counter-example of seed C15-6).',
@@ -2118,8 +2079,10 @@ MANIFEST = {
                   'suffices => the splitting loop keeps volatility.  The equal-sharing hypothesis of the parser has no '
                   'input-level condition yet.  Known findings: zero count dropped, merged negative product, shared '
                   'volatile table, non-integer update rounds (now also: float values farther than 1e-6 from an '
-                  'integer), stale cached durations after an update (Python-side oracle only), make_compatible bakes a '
-                  'volatile child without warning (repair being landed by the C06 owner in round 4).  ForLoopPT is '
+                  'integer), stale cached durations after an update (Python-side oracle only).  Fixed in round 4 '
+                  '(/repo 57d5a3e, landed by the C06 owner with the patch prepared here): make_compatible baked a '
+                  'volatile child without warning; the model switch REPAIRED is true, the C15_make_compatible_repaired_* '
+                  'theorems are the statements about the code as it is now.  ForLoopPT is '
                   'covered by unrolling on the model side (not a model constructor).',
     'technique': 'Coq proof over a hand-written model + exact correspondence check against qupulse',
     'design_ref': 'DESIGN.md §5 C15',
